@@ -174,9 +174,15 @@ func genCluster(r *mrand.Rand, prop, tier string) simcore.Case {
 func killAllOp(r *mrand.Rand, cs *simcore.Case, horizonS int64, withJob int64) simcore.Op {
 	d := 1 + int64(r.IntN(20))
 	at := faultTime(r, horizonS)
-	if r.IntN(3) == 0 {
+	switch r.IntN(4) {
+	case 0:
 		n := 1 + int64(r.IntN(int(horizonS/60)))
 		at = n*60000 - max(d, cs.Cfg["hb_s"])*1000 - int64(r.IntN(4000)) + 500
+	case 1:
+		// shortly after a checkpoint tick: the checkpoint that has just completed, or is
+		// completing, is the one the recovery restores
+		n := 1 + int64(r.IntN(int(horizonS/60)))
+		at = n*60000 + 200 + int64(r.IntN(6000))
 	}
 	return simcore.Op{K: "kill-all", A: []int64{max(at, 0), 0, d, withJob}}
 }
@@ -288,7 +294,12 @@ func bodyCluster(c *sim.Ctx) {
 
 	// --- wait for the end of the run ---
 	simrt.SetGroup("driver")
+	// bounded progress: 30 simulated minutes plus twice the time the paced source needs to
+	// hand over the whole input in the slowest case (one split read per pace interval)
 	deadline := 30 * time.Minute
+	if rb := c.Cfg("readbatch", 2); rb > 0 {
+		deadline += 2 * time.Duration(int64(w.h.total)/rb+1) * time.Duration(c.Cfg("pace_ms", 2000)) * time.Millisecond
+	}
 	startT := time.Now()
 	finalID := uint64(0)
 	lastGC := time.Duration(0)
@@ -374,7 +385,7 @@ func (w *cluWorld) reportIncomplete(all bool, distinct int) {
 			}
 		}
 		if up >= w.workerCount && w.net.alive("job") {
-			c.Violate(prop+"/no-progress", "30 simulated minutes after the last fault, with %d workers and the job up, only %d of %d records were processed (all=%v) and the newest published checkpoint is %d", up, distinct, w.h.total, all, w.newestPub)
+			c.Violate(prop+"/no-progress", "%s after the start (30 simulated minutes plus twice the slowest-case input time) and with the faults over, with %d workers and the job up, only %d of %d records were processed (all=%v) and the newest published checkpoint is %d", fmtDur(w.c.S.SimTime()), up, distinct, w.h.total, all, w.newestPub)
 		}
 	}
 }
